@@ -37,6 +37,7 @@ def parsePixT? (t : String) : Option PixT :=
 
 def run (args : List String) : Option String :=
   match args with
+  | "plan" :: rest => C03.Drv.run ("plan" :: rest)   -- the full plan of compute_reproject_roi (model: C03.reprojectGeoBoxes)
   | ["sig", fn] => pure ((signature fn).elim "unknown" fmtSig)
   | ["s2rio", name] => pure (fmtRes toString (resamplingS2Rio name))
   | ["isnn", kind, v] => do
